@@ -294,6 +294,9 @@ class Dimension:
                                  data_array, "DataArray", index)
 
     def link_data_frame(self, data_frame, index):
+        # the index is checked before anything is written: a refused link
+        # must not leave a half-built link (or remove the previous one)
+        util.check_attr_type(index, int)
         if not 0 <= index < len(data_frame.columns):
             raise OutOfBounds("DataFrame index is out of bounds", index)
         if self.has_link:
